@@ -1,3 +1,311 @@
-import GambitV.Model.Csv
+import GambitV.Lemmas.Export
+import GambitV.Props.C16
+
+/-!
+# C11 — result exporters: the CSV table and the keys-only archive
+
+`Model/Export.lean` follows `gambit/results.py`.
+
+* `CSVResultsExporter` (`queryCsv`): header plus one row per query with the documented 11 columns
+  (`csv_columns`); written with `csv.writer` QUOTE_MINIMAL and terminator `"\n"`, read back with
+  `csv.reader` the file parses to exactly the header and the rows, in order (`csv_parse`) — for names
+  containing commas, quotes, LF, CRLF, any Unicode.  The excluded class is exactly "a field with a
+  CR and nothing that forces quoting" (`fieldOk_false_iff`), and for such a field the file really
+  does not read back (`bare_cr_breaks`, finding C11-F1).
+* archive (`ItemRec.toKeys` / `readItem`): database objects are stored as keys only and looked up by
+  key within the genome set on reading; with unique keys the item read back is equal to the one
+  written (`archive_roundtrip`) — distances as the same bit pattern, warnings, error, success flag.
+  Without unique keys it is not (`archive_needs_unique_keys`).
+
+Helper lemmas: `Lemmas/Export.lean`, `Lemmas/Csv.lean` (the CSV round trip, also C16's).
+Core Lean only.
+-/
 namespace GambitV.C11
+open GambitV GambitV.Export
+
+/-! ### 4. The header -/
+
+/-- 4. No header field is in the excluded class. -/
+theorem header_fields_ok : ∀ f ∈ csvHeader, fieldOk ['\n'] f = true := by decide
+
+/-! ### 1. The CSV file parses back -/
+
+theorem csvRow_ne_nil (it : ItemRec) : csvRow it ≠ [] := by
+  unfold csvRow; exact List.cons_ne_nil _ _
+
+/-- 1. The exported CSV reads back as the header followed by one row per query, in order; fields
+with commas, quotes, LF, CRLF, non-ASCII text survive.  Excluded (hypothesis `hok`): fields in the
+class characterised by `fieldOk_false_iff`. -/
+theorem csv_parse (items : List ItemRec)
+    (hok : ∀ it ∈ items, ∀ f ∈ csvRow it, fieldOk ['\n'] f = true) :
+    parseCsv (queryCsv items) = csvHeader :: items.map csvRow := by
+  unfold queryCsv
+  apply C16.csv_roundtrip _ (Or.inl rfl)
+  · intro row hrow
+    rcases List.mem_cons.1 hrow with h | h
+    · subst h; decide
+    · obtain ⟨it, _, rfl⟩ := List.mem_map.1 h
+      exact csvRow_ne_nil it
+  · intro row hrow
+    rcases List.mem_cons.1 hrow with h | h
+    · subst h; exact header_fields_ok
+    · obtain ⟨it, hit, rfl⟩ := List.mem_map.1 h
+      exact hok it hit
+
+/-- 1b. one row per query -/
+theorem csv_parse_length (items : List ItemRec)
+    (hok : ∀ it ∈ items, ∀ f ∈ csvRow it, fieldOk ['\n'] f = true) :
+    (parseCsv (queryCsv items)).length = items.length + 1 := by
+  rw [csv_parse items hok]; simp
+
+/-- 1c. row `i + 1` of the parsed file is the row of query `i` -/
+theorem csv_parse_row (items : List ItemRec)
+    (hok : ∀ it ∈ items, ∀ f ∈ csvRow it, fieldOk ['\n'] f = true) (i : Nat) :
+    (parseCsv (queryCsv items))[i + 1]? = (items[i]?).map csvRow := by
+  rw [csv_parse items hok]; simp
+
+/-! ### 2. The columns -/
+
+/-- 2. A row has exactly 11 cells. -/
+theorem csv_row_length (it : ItemRec) : (csvRow it).length = 11 := rfl
+
+theorem csv_header_length : csvHeader.length = 11 := rfl
+
+/-- 2. Cell `j` is the documented attribute, or empty when anything along the attribute path is
+`None`. -/
+theorem csv_columns (it : ItemRec) :
+    (csvRow it).length = 11 ∧
+    (csvRow it)[0]? = some it.label ∧
+    (csvRow it)[1]? = some (optCell (it.report.map (·.name))) ∧
+    (csvRow it)[2]? = some (optCell (it.report.bind (·.rank))) ∧
+    (csvRow it)[3]? = some (optCell (it.report.bind (·.ncbiId))) ∧
+    (csvRow it)[4]? = some (optCell (it.report.bind (·.threshold))) ∧
+    (csvRow it)[5]? = some it.closestMatch.distanceText ∧
+    (csvRow it)[6]? = some it.closestMatch.genome.description ∧
+    (csvRow it)[7]? = some (optCell (it.next.map (·.name))) ∧
+    (csvRow it)[8]? = some (optCell (it.next.bind (·.rank))) ∧
+    (csvRow it)[9]? = some (optCell (it.next.bind (·.ncbiId))) ∧
+    (csvRow it)[10]? = some (optCell (it.next.bind (·.threshold))) :=
+  ⟨rfl, rfl, rfl, rfl, rfl, rfl, rfl, rfl, rfl, rfl, rfl, rfl⟩
+
+/-- 2b. With no reported taxon the four `predicted.*` cells are empty; likewise `next.*`. -/
+theorem csv_columns_none (it : ItemRec) :
+    (it.report = none → (csvRow it)[1]? = some [] ∧ (csvRow it)[2]? = some [] ∧
+      (csvRow it)[3]? = some [] ∧ (csvRow it)[4]? = some []) ∧
+    (it.next = none → (csvRow it)[7]? = some [] ∧ (csvRow it)[8]? = some [] ∧
+      (csvRow it)[9]? = some [] ∧ (csvRow it)[10]? = some []) := by
+  constructor
+  · intro h
+    simp [csvRow, h, optCell]
+  · intro h
+    simp [csvRow, h, optCell]
+
+/-- 2c. With a reported taxon the `predicted.*` cells are its name and its (possibly absent)
+rank, NCBI id and threshold. -/
+theorem csv_columns_some (it : ItemRec) (t : TaxonRec) (h : it.report = some t) :
+    (csvRow it)[1]? = some t.name ∧ (csvRow it)[2]? = some (optCell t.rank) ∧
+    (csvRow it)[3]? = some (optCell t.ncbiId) ∧ (csvRow it)[4]? = some (optCell t.threshold) := by
+  simp [csvRow, h, optCell]
+
+/-! ### 3. The excluded class (finding C11-F1) -/
+
+/-- 3. A field fails the guard exactly when it contains a CR and nothing that forces quoting. -/
+theorem fieldOk_false_iff (f : List Char) :
+    fieldOk ['\n'] f = false ↔ ('\r' ∈ f ∧ ',' ∉ f ∧ '"' ∉ f ∧ '\n' ∉ f) :=
+  fieldOk_nl_false_iff f
+
+/-- 3'. Equivalently: the guard holds iff the field has no CR, or has a comma, a quote or an LF. -/
+theorem fieldOk_true_iff (f : List Char) :
+    fieldOk ['\n'] f = true ↔ ('\r' ∉ f ∨ ',' ∈ f ∨ '"' ∈ f ∨ '\n' ∈ f) := by
+  have h := fieldOk_false_iff f
+  cases hf : fieldOk ['\n'] f
+  · obtain ⟨h1, h2, h3, h4⟩ := h.1 hf
+    constructor
+    · intro h; cases h
+    · rintro (h | h | h | h)
+      · exact absurd h1 h
+      · exact absurd h h2
+      · exact absurd h h3
+      · exact absurd h h4
+  · constructor
+    · intro _
+      by_cases h1 : '\r' ∈ f
+      · by_cases h2 : ',' ∈ f
+        · exact Or.inr (Or.inl h2)
+        · by_cases h3 : '"' ∈ f
+          · exact Or.inr (Or.inr (Or.inl h3))
+          · by_cases h4 : '\n' ∈ f
+            · exact Or.inr (Or.inr (Or.inr h4))
+            · have := h.2 ⟨h1, h2, h3, h4⟩
+              rw [hf] at this
+              cases this
+      · exact Or.inl h1
+    · intro _; rfl
+
+/-- 3''. A field without a CR is never in the excluded class. -/
+theorem fieldOk_of_no_cr (f : List Char) (h : '\r' ∉ f) : fieldOk ['\n'] f = true :=
+  (fieldOk_true_iff f).2 (Or.inl h)
+
+def crTaxon : TaxonRec :=
+  { key := ['k'], name := ['a', '\r', 'b'], rank := none, ncbiId := none, threshold := none }
+
+def crItem : ItemRec :=
+  { label := ['q'], report := some crTaxon, next := none,
+    closestMatch := { genome := { key := ['g'], description := ['d'] }, distanceBits := 0,
+                      distanceText := ['0'], matched := none },
+    primary := none, predicted := some crTaxon, closestGenomes := [], success := true,
+    warnings := [], error := none }
+
+/-- the item's `predicted.name` cell is in the excluded class -/
+theorem crItem_not_ok : ∃ f ∈ csvRow crItem, fieldOk ['\n'] f = false := by decide
+
+/-- 3b. Finding C11-F1: an item whose reported taxon is named `"a\rb"` is exported to a file that
+does not read back — the CR is written unquoted and the reader ends the record there. -/
+theorem bare_cr_breaks : parseCsv (queryCsv [crItem]) ≠ csvHeader :: [csvRow crItem] := by
+  set_option maxRecDepth 100000 in decide
+
+/-- 3c. what the reader sees instead: three records, the query's row split at the CR -/
+theorem bare_cr_rows : (parseCsv (queryCsv [crItem])).length = 3 := by
+  set_option maxRecDepth 100000 in decide
+
+/-! ### 5. The archive: keys only, read back within the genome set -/
+
+/-- 5. Only keys are stored (`ItemRec.toKeys`); reading them back against a genome set with unique
+taxon keys and unique genome keys that contains every object of the item reconstructs an equal item:
+the same taxa and genomes, every distance as the same bit pattern (and its rendering), the
+closest-genomes list in order, warnings, error, success flag.  `itemTaxa` / `itemGenomes` /
+`itemMatches` (`Lemmas/Export.lean`) list the taxa (report, next, predicted, matched taxon of every
+match), genomes and matches (closest, primary, closest-genomes list) occurring in the item. -/
+theorem archive_roundtrip (db : Db) (render : Nat → List Char) (it : ItemRec)
+    (hT : (db.taxa.map (·.key)).Nodup) (hG : (db.genomes.map (·.key)).Nodup)
+    (hmem : (∀ t ∈ itemTaxa it, t ∈ db.taxa) ∧ (∀ g ∈ itemGenomes it, g ∈ db.genomes))
+    (htext : ∀ m ∈ itemMatches it, m.distanceText = render m.distanceBits) :
+    readItem db render it.toKeys = some it := by
+  obtain ⟨hmT, hmG⟩ := hmem
+  have hm : ∀ m ∈ itemMatches it, readMatch db render m.toKeys = some m := fun m hm =>
+    readMatch_toKeys db render hT hG m (hmG _ (genome_mem_itemGenomes hm))
+      (fun t ht => hmT t (matchTaxa_sub_itemTaxa hm ht)) (htext m hm)
+  have h1 := readOptTaxon_key db hT it.report (fun t ht => hmT t (report_sub_itemTaxa ht))
+  have h2 := readOptTaxon_key db hT it.next (fun t ht => hmT t (next_sub_itemTaxa ht))
+  have h3 := readOptTaxon_key db hT it.predicted (fun t ht => hmT t (predicted_sub_itemTaxa ht))
+  have h4 := hm it.closestMatch (mem_itemMatches.2 (Or.inl rfl))
+  have h6 := mapM_readMatch db render it.closestGenomes
+    (fun m h => hm m (mem_itemMatches.2 (Or.inr (Or.inr h))))
+  have h5 : ∀ m, it.primary = some m → readMatch db render m.toKeys = some m :=
+    fun m h => hm m (mem_itemMatches.2 (Or.inr (Or.inl h)))
+  obtain ⟨label, report, next, cm, primary, predicted, cg, success, warnings, error⟩ := it
+  unfold readItem ItemRec.toKeys
+  simp only at h1 h2 h3 h4 h5 h6
+  cases primary with
+  | none => simp only [h1, h2, h3, h4, h6]; rfl
+  | some m => simp only [h1, h2, h3, h4, h6, Option.map_some, h5 m rfl]; rfl
+
+/-- 5b. The stored form keeps the non-database fields as they are. -/
+theorem toKeys_fields (it : ItemRec) :
+    it.toKeys.label = it.label ∧ it.toKeys.success = it.success ∧ it.toKeys.warnings = it.warnings ∧
+    it.toKeys.error = it.error ∧ it.toKeys.closestMatch.distanceBits = it.closestMatch.distanceBits ∧
+    it.toKeys.closestGenomes.map (·.distanceBits) = it.closestGenomes.map (·.distanceBits) := by
+  refine ⟨rfl, rfl, rfl, rfl, rfl, ?_⟩
+  simp [ItemRec.toKeys, MatchRec.toKeys]
+
+/-- 5c. Consequently two items over the same genome set with the same stored form are equal. -/
+theorem toKeys_injective (db : Db) (render : Nat → List Char) (it it' : ItemRec)
+    (hT : (db.taxa.map (·.key)).Nodup) (hG : (db.genomes.map (·.key)).Nodup)
+    (hmem : (∀ t ∈ itemTaxa it, t ∈ db.taxa) ∧ (∀ g ∈ itemGenomes it, g ∈ db.genomes))
+    (htext : ∀ m ∈ itemMatches it, m.distanceText = render m.distanceBits)
+    (hmem' : (∀ t ∈ itemTaxa it', t ∈ db.taxa) ∧ (∀ g ∈ itemGenomes it', g ∈ db.genomes))
+    (htext' : ∀ m ∈ itemMatches it', m.distanceText = render m.distanceBits)
+    (h : it.toKeys = it'.toKeys) : it = it' := by
+  have h1 := archive_roundtrip db render it hT hG hmem htext
+  have h2 := archive_roundtrip db render it' hT hG hmem' htext'
+  rw [h, h2] at h1
+  exact (Option.some.inj h1).symm
+
+/-! ### 6. Why keys must be unique within the genome set -/
+
+def dupTaxonA : TaxonRec :=
+  { key := ['k'], name := ['A'], rank := none, ncbiId := none, threshold := none }
+def dupTaxonB : TaxonRec :=
+  { key := ['k'], name := ['B'], rank := none, ncbiId := none, threshold := none }
+def dupDb : Db := { taxa := [dupTaxonA, dupTaxonB], genomes := [{ key := ['g'], description := ['d'] }] }
+def dupRender : Nat → List Char := fun _ => ['0']
+def dupItem : ItemRec :=
+  { label := ['q'], report := some dupTaxonB, next := none,
+    closestMatch := { genome := { key := ['g'], description := ['d'] }, distanceBits := 0,
+                      distanceText := ['0'], matched := none },
+    primary := none, predicted := none, closestGenomes := [], success := true,
+    warnings := [], error := none }
+
+/-- 6. Two taxa sharing a key: every object of the item is in the database and the distance texts
+agree, yet the item read back is a different one (the lookup returns the first taxon with the key). -/
+theorem archive_needs_unique_keys :
+    ((∀ t ∈ itemTaxa dupItem, t ∈ dupDb.taxa) ∧ (∀ g ∈ itemGenomes dupItem, g ∈ dupDb.genomes)) ∧
+    (∀ m ∈ itemMatches dupItem, m.distanceText = dupRender m.distanceBits) ∧
+    (dupDb.genomes.map (·.key)).Nodup ∧ ¬ (dupDb.taxa.map (·.key)).Nodup ∧
+    readItem dupDb dupRender dupItem.toKeys ≠ some dupItem := by
+  decide
+
+/-- 6b. what is read back instead: the other taxon -/
+theorem archive_dup_reads_other :
+    readItem dupDb dupRender dupItem.toKeys = some { dupItem with report := some dupTaxonA } := by
+  decide
+
+/-! ### 7. Non-vacuity -/
+
+def exSpecies : TaxonRec :=
+  { key := "sp1".toList, name := "Escherichia coli".toList, rank := some "species".toList,
+    ncbiId := some "562".toList, threshold := some "0.5".toList }
+def exGenus : TaxonRec :=
+  { key := "ge1".toList, name := "Escherichia".toList, rank := some "genus".toList,
+    ncbiId := none, threshold := some "0.9".toList }
+def exG1 : GenomeRec := { key := "g1".toList, description := "genome one".toList }
+def exG2 : GenomeRec := { key := "g2".toList, description := "genome, \"two\"".toList }
+def exDb : Db := { taxa := [exSpecies, exGenus], genomes := [exG1, exG2] }
+/-- a rendering function (the theorem holds for any) -/
+def exRender : Nat → List Char := fun n => if n = 1056964608 then "0.5".toList else "0.75".toList
+def exM1 : MatchRec :=
+  { genome := exG1, distanceBits := 1056964608, distanceText := "0.5".toList, matched := some exGenus }
+def exM2 : MatchRec :=
+  { genome := exG2, distanceBits := 1061158912, distanceText := "0.75".toList, matched := none }
+/-- no reported taxon, a next taxon, two closest genomes, a warning -/
+def exItem : ItemRec :=
+  { label := "query 1".toList, report := none, next := some exSpecies, closestMatch := exM1,
+    primary := some exM1, predicted := some exGenus, closestGenomes := [exM1, exM2], success := true,
+    warnings := ["inconsistent matches".toList], error := none }
+
+/-- 7a. the hypotheses of `archive_roundtrip` are satisfiable -/
+theorem archive_hyps_example :
+    (exDb.taxa.map (·.key)).Nodup ∧ (exDb.genomes.map (·.key)).Nodup ∧
+    ((∀ t ∈ itemTaxa exItem, t ∈ exDb.taxa) ∧ (∀ g ∈ itemGenomes exItem, g ∈ exDb.genomes)) ∧
+    (∀ m ∈ itemMatches exItem, m.distanceText = exRender m.distanceBits) := by
+  decide
+
+/-- 7b. and the theorem applies -/
+theorem archive_example : readItem exDb exRender exItem.toKeys = some exItem :=
+  archive_roundtrip exDb exRender exItem archive_hyps_example.1 archive_hyps_example.2.1
+    archive_hyps_example.2.2.1 archive_hyps_example.2.2.2
+
+/-- a second query whose taxon name contains a comma, a quote and a line feed (and a CRLF) -/
+def exOddTaxon : TaxonRec :=
+  { key := "sp2".toList, name := "Odd, \"name\"\nline\r\nétrange".toList, rank := some "species".toList,
+    ncbiId := none, threshold := none }
+def exItem2 : ItemRec :=
+  { label := "query,2".toList, report := some exOddTaxon, next := none, closestMatch := exM2,
+    primary := none, predicted := some exOddTaxon, closestGenomes := [exM2], success := false,
+    warnings := [], error := some "no match".toList }
+
+/-- 7c. the hypothesis of `csv_parse` holds for these two items -/
+theorem csv_hyp_example : ∀ it ∈ [exItem, exItem2], ∀ f ∈ csvRow it, fieldOk ['\n'] f = true := by
+  decide
+
+/-- 7d. and the exported file of the two items parses back to header + two rows -/
+theorem csv_parse_example :
+    parseCsv (queryCsv [exItem, exItem2]) = [csvHeader, csvRow exItem, csvRow exItem2] :=
+  csv_parse [exItem, exItem2] csv_hyp_example
+
+/-- 7e. the same fact by evaluation of the model (independent of the general proof) -/
+theorem csv_parse_example_decide :
+    parseCsv (queryCsv [exItem, exItem2]) = [csvHeader, csvRow exItem, csvRow exItem2] := by
+  set_option maxRecDepth 100000 in decide
+
 end GambitV.C11
